@@ -115,6 +115,8 @@ type Net struct {
 	lat     *Hasher
 	fault   *Hasher
 	Fired   []FiredFault
+	// Describe renders the cluster layout for diagnostics.
+	Describe func() string
 	// Panics of the backend's handlers (e.g. the mock's "key not in region").
 	Panics []string
 	// Observers are called on the simulator goroutine (phase "exec" after
@@ -605,7 +607,11 @@ func (n *Net) safeSend(rec *RPCRecord, req *tikvrpc.Request) (resp *tikvrpc.Resp
 	defer func() {
 		if r := recover(); r != nil {
 			msg := fmt.Sprint(r)
-			n.Panics = append(n.Panics, fmt.Sprintf("%s: %s#%d req=%s ctx={region %d epoch %v}", msg, rec.Identity, rec.Occ, req.Req, req.Context.GetRegionId(), req.Context.GetRegionEpoch()))
+			layout := ""
+			if n.Describe != nil {
+				layout = " cluster=" + n.Describe()
+			}
+			n.Panics = append(n.Panics, fmt.Sprintf("%s: %s#%d req=%s ctx={region %d epoch %v}%s", msg, rec.Identity, rec.Occ, req.Req, req.Context.GetRegionId(), req.Context.GetRegionEpoch(), layout))
 			n.Sim.Count("backend.panic")
 			resp, err = nil, status.Error(codes.Internal, "sim: server panicked: "+msg)
 		}
